@@ -32,7 +32,7 @@ META = {
 KIND_NAMES = ['known', 'impossible-point', 'impossible-upper', 'impossible-lower']
 
 
-def analyse_program(ctx, prog, d, extra_args=(), lang='c'):
+def analyse_program(ctx, prog, d, extra_args=(), lang='c', attr='intvalue'):
     """-> (facts [(pid, kind, K)], desc {(pid,kind,K): text}, stats) or None if cppcheck failed"""
     ext = '.c' if lang == 'c' else '.cpp'
     src = os.path.join(d, 'p' + ext)
@@ -58,17 +58,17 @@ def analyse_program(ctx, prog, d, extra_args=(), lang='c'):
             continue
         joined += 1
         tok = cands[0]
-        for kidx, k, text in probe.int_facts_for_token(tok, values):
+        for kidx, k, text in probe.int_facts_for_token(tok, values, attr=attr):
             facts.append((pid, kidx, k))
             desc[(pid, kidx, k)] = '%s @ %d:%d (token %r, %s expression)' % (text, line, col, tokstr, kind)
     return facts, desc, {'joined': joined, 'unjoined': unjoined}
 
 
-def check_program(prog, d, vecs, extra_args=(), lang='c', counter=None):
+def check_program(prog, d, vecs, extra_args=(), lang='c', counter=None, attr='intvalue'):
     """Run the whole monitor pipeline on one program in directory d.
     -> dict(status, facts, viols [(pid,kidx,K,bad,vec,viol,hits,desc)], hit, obs, stats)"""
     cnt = counter or (lambda *a: None)
-    res = analyse_program(None, prog, d, extra_args, lang)
+    res = analyse_program(None, prog, d, extra_args, lang, attr)
     if res is None:
         return {'status': 'cppcheck-failed'}
     facts, desc, st = res
